@@ -7,6 +7,8 @@ CONSTANTS
   MaxLen = 2
   WithBad = FALSE
   WithDup = FALSE
+  WithSplit = FALSE
+  C0peer = "a0"
   MaxLevel = 5
 INVARIANTS TypeOK PropertyHolds
 CHECK_DEADLOCK FALSE
